@@ -10,6 +10,9 @@ D  retain_ltype / pp.func.jacrev: random bodies with nesting and injected except
 E  non-mutation sweep over the public API + write sets vs the effect model (eff_bad).
 F  dtype clause: every op / accessor / converter / constructor x operand dtypes {f64, f32, f16, bf16} x process default
    dtype {float32, float64}: documented result dtype, independence of the process default (oracle from the docs only).
+G  documented optional arguments / call forms: add / add_ (alpha, other with ignored trailing elements or an algebra LieTensor), cum* (dim, left, ops),
+   euler / quat2unit (eps), randn_* / identity_* / *_like (lsize forms, sigma, requires_grad, dtype, device), mat2* / from_matrix (check, rtol, atol):
+   batched == item by item on every broadcast class and memory layout, closed forms from the docs, non-mutation, repeatability.
 The defects repaired by c362486, 9407769, 146d9a5, 613c139, 084bc81 stay in as directed regression cases.
 """
 import itertools, math, random, warnings, copy, importlib
@@ -18,7 +21,7 @@ from ..common import *
 from ..lie import *
 
 RULE = ('a case is (lshape pair, group, op) [exhaustive over rank<=3, extents 0..3], (lshape, group, unary op), '
-        '(handled function, call form), (retain_ltype body tree), (public function, argument class), (op, ltype, lshape, operand dtypes, process default dtype); exact comparison '
+        '(handled function, call form), (retain_ltype body tree), (public function, argument class), (op, ltype, lshape, operand dtypes, process default dtype), (function, optional-argument value, call form, lshapes, memory layouts); exact comparison '
         'for polynomial ops on exactly representable items, 64 eps for ops through Exp/Log; non-trivial = batch with '
         'more than one item or a broadcast / empty / rank-0 edge')
 
@@ -1649,6 +1652,640 @@ def replay_dtype(pp, torch, c):
     return None
 
 
+# ------------------------------------------------------------------------------------------------ part G
+# Documented OPTIONAL arguments and call forms of the swept operations (added after seeded change C06-8: the out-of-place
+# add applied alpha twice, only when `self` had to be broadcast and alpha was not 0 / 1 -- no part above ever passed
+# alpha=).  Every optional argument the documentation of a swept function names is rotated through its regimes, every
+# positional / keyword / operator / pp.* call form is used, on lshape pairs of every broadcast class (none, self only,
+# other only, both, rank 0, empty), on contiguous / strided / permuted / expanded operands, on batches that mix special
+# items (identity, zero, gimbal lock, non-unit and tiny quaternions) with generic ones:
+#   add / add_ (alpha; other = tensor, tensor with ignored trailing elements, algebra LieTensor), cumprod / cummul /
+#   cumops and the in-place variants (dim as positive / negative / keyword, left), euler (eps), quat2unit (eps),
+#   randn_* / identity_* / randn_like / identity_like (lsize forms, sigma, requires_grad, dtype, device), mat2* /
+#   from_matrix (check, rtol, atol).
+# Oracles (documentation only): the batched result equals the same call on the rank-0 items under torch broadcasting;
+# closed forms  y = x + alpha a  (algebra, exact on dyadic items),  matrix(y) = expm(alpha hat(a)) matrix(x)  (group, the
+# documented Exp(alpha a) x, with torch.linalg.matrix_exp and a quaternion -> matrix formula of the harness), the
+# sequential fold with the textbook product of harness/lie.py, v / max(|v|, eps), R(euler(X)) = R(X) away from the
+# eps-band, matrix(mat2G(M)) = M; result type / ltype / shape / dtype; arguments bit-for-bit unchanged (also the buffer
+# around a strided view); the same call repeated on the same objects gives the same result; lshapes that do not
+# broadcast raise; in-place variants return values equal to the out-of-place ones and leave the other operand alone.
+OA_PAIRS = [((), ()), ((3,), (3,)), ((2, 3), (2, 3)), ((2, 3), (3,)), ((2, 3), (1, 1)), ((3,), ()), ((), (3,)), ((1,), (3,)),
+            ((3,), (2, 3)), ((2, 1), (1, 3)), ((1, 1), (2, 1, 2)), ((1, 2, 1), (3, 1, 2)), ((0,), (1,)), ((1,), (0,)), ((), (0,)),
+            ((0,), ()), ((2, 0), (1,)), ((1,), (1,)), ((1, 1), (1,)), ((1,), (2, 1))]
+OA_BAD_PAIRS = [((2,), (3,)), ((2, 3), (2,)), ((3, 1), (2, 2)), ((0,), (2,)), ((2, 2), (3, 1, 3))]
+OA_ALPHAS = [None, 1, 2, 0, -1, 0.5, -2.0, 3, 0.25, 1.0, -0.75]
+OA_ADD = {  # alpha given / omitted (documented default 1; `x + a`, `x.add(a)`, `pp.add(x, a)` are documented as equivalent)
+    True: [('X.add(a, alpha)', lambda pp, X, a, al: X.add(a, al)), ('X.add(a, alpha=alpha)', lambda pp, X, a, al: X.add(a, alpha=al)),
+           ('X.add(other=a, alpha=alpha)', lambda pp, X, a, al: X.add(other=a, alpha=al)), ('pp.add(X, a, alpha)', lambda pp, X, a, al: pp.add(X, a, al)),
+           ('pp.add(X, a, alpha=alpha)', lambda pp, X, a, al: pp.add(X, a, alpha=al)),
+           ('pp.add(input=X, other=a, alpha=alpha)', lambda pp, X, a, al: pp.add(input=X, other=a, alpha=al))],
+    False: [('X.add(a)', lambda pp, X, a, al: X.add(a)), ('X + a', lambda pp, X, a, al: X + a), ('pp.add(X, a)', lambda pp, X, a, al: pp.add(X, a)),
+            ('X.add(other=a)', lambda pp, X, a, al: X.add(other=a)), ('pp.add(input=X, other=a)', lambda pp, X, a, al: pp.add(input=X, other=a))]}
+OA_ADD_ = {
+    True: [('X.add_(a, alpha)', lambda pp, X, a, al: X.add_(a, al)), ('X.add_(a, alpha=alpha)', lambda pp, X, a, al: X.add_(a, alpha=al)),
+           ('X.add_(other=a, alpha=alpha)', lambda pp, X, a, al: X.add_(other=a, alpha=al)), ('pp.add_(X, a, alpha)', lambda pp, X, a, al: pp.add_(X, a, al)),
+           ('pp.add_(X, a, alpha=alpha)', lambda pp, X, a, al: pp.add_(X, a, alpha=al)),
+           ('pp.add_(input=X, other=a, alpha=alpha)', lambda pp, X, a, al: pp.add_(input=X, other=a, alpha=al))],
+    False: [('X.add_(a)', lambda pp, X, a, al: X.add_(a)), ('pp.add_(X, a)', lambda pp, X, a, al: pp.add_(X, a)),
+            ('X.add_(other=a)', lambda pp, X, a, al: X.add_(other=a))]}
+OA_LAYOUTS = ['contiguous', 'strided-view', 'permuted-memory', 'expanded']
+
+
+def oa_close(torch, a, b, rel):
+    """per item: max |a - b| <= rel (1 + max |b|)"""
+    if a.shape != b.shape:
+        return False
+    if a.numel() == 0:
+        return True
+    return bool(((a - b).abs().amax() <= rel * (1 + b.abs().amax())))
+
+
+def oa_layout(torch, t, mode, out_l=None):
+    """the same values in another memory layout -> (tensor, buffer that must stay unchanged as well)"""
+    if mode == 1:        # every second element of a larger buffer
+        big = torch.full(tuple(t.shape[:-1]) + (2 * t.shape[-1],), 7.0, dtype=t.dtype)
+        big[..., ::2] = t
+        return big[..., ::2], big
+    if mode == 2 and t.dim() >= 2:    # reversed memory order of the dimensions
+        p = list(range(t.dim()))[::-1]
+        base = t.permute(p).contiguous()
+        return base.permute(p), base
+    if mode == 3 and out_l is not None:   # stride-0 view of the broadcast lshape
+        return t.expand(tuple(out_l) + (t.shape[-1],)), t
+    return t, t
+
+
+def oa_mat4(torch, g, T):
+    """documented 4x4 matrix [[s R(q), t], [0, 1]] of raw group items (quaternion -> rotation formula, not pypose's)"""
+    if g in ('SO3', 'RxSO3'):
+        q, t = T[..., :4], torch.zeros(T.shape[:-1] + (3,), dtype=T.dtype)
+        s = T[..., 4] if g == 'RxSO3' else torch.ones(T.shape[:-1], dtype=T.dtype)
+    else:
+        t, q = T[..., :3], T[..., 3:7]
+        s = T[..., 7] if g == 'Sim3' else torch.ones(T.shape[:-1], dtype=T.dtype)
+    x, y, z, w = q.unbind(-1)
+    n = x * x + y * y + z * z + w * w
+    R = torch.stack([torch.stack([n - 2 * (y * y + z * z), 2 * (x * y - z * w), 2 * (x * z + y * w)], -1),
+                     torch.stack([2 * (x * y + z * w), n - 2 * (x * x + z * z), 2 * (y * z - x * w)], -1),
+                     torch.stack([2 * (x * z - y * w), 2 * (y * z + x * w), n - 2 * (x * x + y * y)], -1)], -2) / n[..., None, None]
+    M = torch.zeros(T.shape[:-1] + (4, 4), dtype=T.dtype)
+    M[..., :3, :3] = s[..., None, None] * R
+    M[..., :3, 3] = t
+    M[..., 3, 3] = 1
+    return M
+
+
+def oa_generator(torch, g, a):
+    """4x4 matrix of the algebra item (tau, phi, sigma as available): [[sigma I + hat(phi), tau], [0, 0]]"""
+    z3, z1 = torch.zeros(a.shape[:-1] + (3,), dtype=a.dtype), torch.zeros(a.shape[:-1] + (1,), dtype=a.dtype)
+    tau, phi, sig = {'SO3': (z3, a[..., 0:3], z1), 'SE3': (a[..., 0:3], a[..., 3:6], z1), 'RxSO3': (z3, a[..., 0:3], a[..., 3:4]),
+                     'Sim3': (a[..., 0:3], a[..., 3:6], a[..., 6:7])}[g]
+    G = torch.zeros(a.shape[:-1] + (4, 4), dtype=a.dtype)
+    O = torch.zeros_like(phi[..., 0])
+    G[..., :3, :3] = torch.stack([torch.stack([O, -phi[..., 2], phi[..., 1]], -1), torch.stack([phi[..., 2], O, -phi[..., 0]], -1),
+                                  torch.stack([-phi[..., 1], phi[..., 0], O], -1)], -2) + sig[..., None] * torch.eye(3, dtype=a.dtype)
+    G[..., :3, 3] = tau
+    return G
+
+
+def oa_group_items(rng, g, torch, n):
+    items = [generic_elt(rng, g, torch, torch.float64) for _ in range(n)]
+    if n >= 2:
+        items[0] = list(DT_IDENT[g])
+    return items
+
+
+def oa_add_operands(pp, torch, c):
+    """deterministic function of the case -> (X, a, buffers, out lshape or None)"""
+    g, alg, lx, la = c['g'], c['alg'], tuple(c['lx']), tuple(c['la'])
+    rng = random.Random('C06-optarg-add|%s|%s|%s|%s|%s' % (g, alg, lx, la, c['oseed']))
+    D, d = torch.float64, ADIM[g]
+    nx, na = numel(lx), numel(la)
+    if alg:
+        xi = [[dy(rng, 5, 2.0) for _ in range(d)] for _ in range(nx)]
+        if nx >= 2:
+            xi[0] = [0.0] * d
+    else:
+        xi = oa_group_items(rng, g, torch, nx)
+    ai = [[dy(rng, 5, 0.5) for _ in range(d)] + [1.0 + dy(rng, 3, 0.5) for _ in range(c['extra'])] for _ in range(na)]
+    if na >= 2:
+        ai[1][:d] = [0.0] * d
+    xd = d if alg else GDIM[g]
+    Xr = torch.tensor(xi, dtype=D).reshape(lx + (xd,)) if nx else torch.zeros(lx + (xd,), dtype=D)
+    ar = torch.tensor(ai, dtype=D).reshape(la + (d + c['extra'],)) if na else torch.zeros(la + (d + c['extra'],), dtype=D)
+    try:
+        out_l = tuple(torch.broadcast_shapes(lx, la))
+    except RuntimeError:
+        out_l = None
+    Xv, Xb = oa_layout(torch, Xr, c['layx'], out_l if not c['inplace'] else None)
+    av, ab = oa_layout(torch, ar, c['laya'], out_l)
+    X = pp.LieTensor(Xv, ltype=getattr(pp, (ALG[g] if alg else g) + '_type'))
+    a = pp.LieTensor(av, ltype=getattr(pp, ALG[g] + '_type')) if c['alie'] else av
+    return X, a, [Xb, ab], out_l
+
+
+def oa_add_check(pp, torch, c):
+    """X.add(a, alpha) / X.add_(a, alpha) in the call form c['form'] -> description of the failure or None"""
+    g, alg, alpha, inplace = c['g'], c['alg'], c['alpha'], c['inplace']
+    X, a, bufs, out_l = oa_add_operands(pp, torch, c)
+    d = ADIM[g]
+    text, f = (OA_ADD_ if inplace else OA_ADD)[alpha is not None][c['form'] % len((OA_ADD_ if inplace else OA_ADD)[alpha is not None])]
+    al = 1 if alpha is None else alpha
+    where = '%s with X = %s of lshape %s (%s), a = %s of shape %s (%s)%s' % (
+        text, X.ltype.__class__.__name__[:-4], tuple(X.lshape), OA_LAYOUTS[c['layx']], 'algebra LieTensor' if c['alie'] else 'tensor', tuple(a.shape),
+        OA_LAYOUTS[c['laya']], '' if alpha is None else ', alpha = %r' % (alpha,))
+    X0, a0 = raw(X, torch).clone(), raw(a, torch).clone()
+    snaps = [b.clone() for b in bufs]
+    try:
+        r = f(pp, X, a, alpha)
+    except Exception as e:
+        if out_l is None:
+            return None
+        return '%s raises %s (the lshapes broadcast to %s)' % (where, repr(e)[:150], out_l)
+    if out_l is None:
+        return '%s returns shape %s although the lshapes do not broadcast' % (where, tuple(r.shape))
+    show = lambda t: t.reshape(-1)[:8].tolist()
+    if inplace:
+        if tuple(torch.broadcast_shapes(tuple(X0.shape[:-1]), out_l)) != tuple(X0.shape[:-1]):
+            return None
+        if not (isinstance(r, torch.Tensor) and r.data_ptr() == X.data_ptr() and torch.equal(raw(r, torch), raw(X, torch))):
+            return '%s does not return the LieTensor it modified' % where
+        if not (torch.equal(raw(a, torch), a0) and torch.equal(bufs[1], snaps[1])):
+            return '%s changes the values of its argument `other`' % where
+        if c['layx'] == 1 and not torch.equal(bufs[0][..., 1::2], snaps[0][..., 1::2]):
+            return '%s writes outside the view it was called on' % where
+    else:
+        if not (torch.equal(raw(X, torch), X0) and torch.equal(raw(a, torch), a0) and all(torch.equal(b, s) for b, s in zip(bufs, snaps))):
+            return '%s changes the values of its tensor argument(s)' % where
+    xd = X0.shape[-1]
+    if ltype_name(r, torch) != ltype_name(X, torch) or tuple(r.shape) != out_l + (xd,) or r.dtype != X0.dtype or r.device != X0.device:
+        return '%s returns %s / ltype %s / shape %s / %s, documented: a %s LieTensor of shape %s' % (
+            where, type(r).__name__, ltype_name(r, torch), tuple(r.shape), r.dtype, ltype_name(X, torch), out_l + (xd,))
+    R = raw(r, torch).clone()
+    Xb, ab = torch.broadcast_to(X0, out_l + (xd,)).reshape(-1, xd), torch.broadcast_to(a0, out_l + (a0.shape[-1],)).reshape(-1, a0.shape[-1])
+    flat = R.reshape(-1, xd)
+    # closed form from the documentation of pp.add
+    if alg:
+        ref = Xb + al * ab[:, :d]
+        bad = (flat != ref).any(-1).nonzero().reshape(-1).tolist()
+        if bad:
+            k = bad[0]
+            return '%s: item %d of the result is %s, documented x + alpha * a = %s + %r * %s = %s' % (
+                where, k, flat[k].tolist(), Xb[k].tolist(), al, ab[k, :d].tolist(), ref[k].tolist())
+    elif flat.shape[0]:
+        ref = torch.linalg.matrix_exp(al * oa_generator(torch, g, ab[:, :d])) @ oa_mat4(torch, g, Xb)
+        got = oa_mat4(torch, g, flat)
+        err = (got - ref).abs().amax((-1, -2)) / (1 + ref.abs().amax((-1, -2)))
+        if not bool((err <= 1e-9).all()):
+            k = int(err.argmax()) if not bool(err.isnan().any()) else int(err.isnan().nonzero()[0])
+            return '%s: item %d of the result is %s (x = %s, a = %s); its matrix differs from the documented expm(alpha * hat(a)) @ matrix(x) by %.3g (relative)' % (
+                where, k, flat[k].tolist(), Xb[k].tolist(), ab[k].tolist(), float(err[k]))
+    # item by item: the same operation on the rank-0 items under torch broadcasting
+    lt = X.ltype
+    for k in range(flat.shape[0]):
+        xk, ak = pp.LieTensor(Xb[k].clone(), ltype=lt), ab[k].clone()
+        it = raw(xk.add(ak) if alpha is None else xk.add(ak, alpha=alpha), torch)
+        if not (torch.equal(flat[k], it) if alg else oa_close(torch, flat[k], it, 64 * 2.3e-16)):
+            return '%s: item %d of the batched result %s differs from the same call on the items x = %s, a = %s: %s' % (
+                where, k, flat[k].tolist(), Xb[k].tolist(), ak.tolist(), it.tolist())
+    # the same call again on the same objects
+    if not inplace:
+        r2 = raw(f(pp, X, a, alpha), torch)
+        if not torch.equal(r2, R):
+            return '%s: the second call on the same objects returns %s, the first one %s' % (where, show(r2), show(R))
+    return None
+
+
+def oa_add_cases(ctx, torch):
+    rng = ctx.rng
+    oseed = rng.randrange(1 << 30)
+    ok_pairs = []
+    for lx in SHAPES:
+        for la in SHAPES:
+            try:
+                torch.broadcast_shapes(lx, la)
+                ok_pairs.append((lx, la))
+            except RuntimeError:
+                pass
+    full_pairs = [p for p in ok_pairs if numel(torch.broadcast_shapes(*p)) > 1]
+    pairs = OA_PAIRS + [rng.choice(ok_pairs if i % 4 == 3 else full_pairs) for i in range(ctx.scale(8, 200))]
+    k = rng.randrange(1000)
+    for g in GROUPS:
+        for alg in (False, True):
+            for lx, la in pairs:
+                out_l = tuple(torch.broadcast_shapes(lx, la))
+                for alpha in OA_ALPHAS:
+                    k += 1
+                    extra = (0, 0, 1, GDIM[g] - ADIM[g] + 2)[(k // 3) % 4]
+                    c = dict(kind='optarg', sub='add', g=g, alg=alg, lx=lx, la=la, alpha=alpha, form=k, extra=extra, alie=(extra == 0 and k % 5 == 0),
+                             layx=(k // 2) % 4, laya=(k // 7) % 4, inplace=False, oseed=oseed)
+                    yield c, out_l
+                    if out_l == lx and k % 2:
+                        yield dict(c, inplace=True, layx=(k // 2) % 3), out_l
+            for lx, la in OA_BAD_PAIRS:
+                k += 1
+                yield dict(kind='optarg', sub='add', g=g, alg=alg, lx=lx, la=la, alpha=OA_ALPHAS[k % len(OA_ALPHAS)], form=k, extra=0, alie=False,
+                           layx=0, laya=0, inplace=bool(k % 2), oseed=oseed), None
+
+
+def oa_edge(lx, la, out_l):
+    if out_l is None:
+        return 'incompatible-raises'
+    if numel(out_l) == 0:
+        return 'empty'
+    if out_l == ():
+        return 'rank0'
+    sx, so = (tuple(lx) != tuple(out_l)), (tuple(la) != tuple(out_l))
+    return 'both-broadcast' if (sx and so) else ('self-broadcast' if sx else ('other-broadcast' if so else 'same-shape'))
+
+
+# ---- cumulative products: dim / left
+OA_CUM_SHAPES = [((1,), 0), ((2,), 0), ((3,), 0), ((5,), 0), ((2, 3), 0), ((2, 3), 1), ((3, 2), 1), ((2, 1, 3), 2), ((2, 1, 3), 1), ((3, 2, 2), 0), ((0, 3), 1), ((4, 0), 0), ((0,), 0), ((2, 0), 1), ((0, 3), 0)]
+
+
+def oa_cum_call(pp, fn, form, X, dim, left, ops):
+    """documented call forms of cumprod / cummul (left optional) and cumops (ops)"""
+    if ops is not None:
+        F = [('X.%s(dim, ops)', lambda: getattr(X, fn)(dim, ops)), ('pp.%s(X, dim, ops)', lambda: getattr(pp, fn)(X, dim, ops)),
+             ('X.%s(dim=dim, ops=ops)', lambda: getattr(X, fn)(dim=dim, ops=ops)), ('pp.%s(input=X, dim=dim, ops=ops)', lambda: getattr(pp, fn)(input=X, dim=dim, ops=ops))]
+    elif left is None:
+        F = [('X.%s(dim)', lambda: getattr(X, fn)(dim)), ('pp.%s(X, dim)', lambda: getattr(pp, fn)(X, dim)), ('X.%s(dim=dim)', lambda: getattr(X, fn)(dim=dim)),
+             ('pp.%s(input=X, dim=dim)', lambda: getattr(pp, fn)(input=X, dim=dim))]
+    else:
+        F = [('X.%s(dim, left)', lambda: getattr(X, fn)(dim, left)), ('X.%s(dim, left=left)', lambda: getattr(X, fn)(dim, left=left)),
+             ('X.%s(dim=dim, left=left)', lambda: getattr(X, fn)(dim=dim, left=left)), ('pp.%s(X, dim, left)', lambda: getattr(pp, fn)(X, dim, left)),
+             ('pp.%s(X, dim, left=left)', lambda: getattr(pp, fn)(X, dim, left=left)), ('pp.%s(input=X, dim=dim, left=left)', lambda: getattr(pp, fn)(input=X, dim=dim, left=left))]
+    text, f = F[form % len(F)]
+    return text % fn, f
+
+
+def oa_cum_check(pp, torch, c):
+    g, ls, dim, left, fn = c['g'], tuple(c['ls']), c['dim'], c['left'], c['fn']
+    rng = random.Random('C06-optarg-cum|%s|%s|%s' % (g, ls, c['oseed']))
+    D, gd = torch.float64, GDIM[g]
+    n = numel(ls)
+    items = oa_group_items(rng, g, torch, n)
+    Xr = torch.tensor(items, dtype=D).reshape(ls + (gd,)) if n else torch.zeros(ls + (gd,), dtype=D)
+    Xv, buf = oa_layout(torch, Xr, c['layx'])
+    X = pp.LieTensor(Xv, ltype=getattr(pp, g + '_type'))
+    eff_left = True if left is None else bool(left)
+    ops = None
+    if fn.startswith('cumops'):
+        ops = (lambda u, v: v @ u) if eff_left else (lambda u, v: u @ v)
+    pdim = dim if dim >= 0 else dim + len(ls) + 1
+    text, f = oa_cum_call(pp, fn, c['form'], X, dim, left, ops)
+    where = '%s with X = %s of lshape %s (%s), dim = %d%s' % (text, g, ls, OA_LAYOUTS[c['layx']], dim, (', ops = lambda a, b: %s' % ('b @ a' if eff_left else 'a @ b')) if ops
+                                                            else ('' if left is None else ', left = %r' % left))
+    X0, snap = Xr.clone(), buf.clone()
+    try:
+        r = f()
+    except Exception as e:
+        return '%s raises %s' % (where, repr(e)[:150])
+    inplace = fn.endswith('_')
+    if inplace:
+        if not (isinstance(r, torch.Tensor) and r.data_ptr() == X.data_ptr() and torch.equal(raw(r, torch), raw(X, torch))):
+            return '%s does not return the LieTensor it modified' % where
+    elif not (torch.equal(raw(X, torch), X0) and torch.equal(buf, snap)):
+        return '%s changes the values of its argument' % where
+    if ltype_name(r, torch) != g + 'Type' or tuple(r.shape) != ls + (gd,) or r.dtype != D:
+        return '%s returns %s / ltype %s / shape %s, documented: a %sType LieTensor of shape %s' % (where, type(r).__name__, ltype_name(r, torch), tuple(r.shape), g, ls + (gd,))
+    R = raw(r, torch).clone()
+    # every 1-d fibre along dim: the sequential fold (documented y_i = x_i ... x_1 for left, x_1 ... x_i otherwise)
+    if not R.numel():
+        return None     # no items: shape, ltype, dtype and non-mutation were judged above
+    Rm, Xm = R.movedim(pdim, -2).reshape(-1, ls[pdim], gd), X0.movedim(pdim, -2).reshape(-1, ls[pdim], gd)
+    for s in range(Rm.shape[0]):
+        acc, seq = None, []
+        for i in range(ls[pdim]):
+            x = Xm[s, i].tolist()
+            acc = x if acc is None else (ref_mul(g, x, acc) if eff_left else ref_mul(g, acc, x))
+            seq.append([float(v) for v in acc])
+        ref = torch.tensor(seq, dtype=D).reshape(ls[pdim], gd)
+        for i in range(ls[pdim]):
+            if not oa_close(torch, Rm[s, i], ref[i], 1e-11):
+                return '%s: item %d of fibre %d of the result is %s, the %s fold of the items %s is %s' % (
+                    where, i, s, Rm[s, i].tolist(), 'left (x_i ... x_1)' if eff_left else 'right (x_1 ... x_i)', Xm[s, :i + 1].tolist(), ref[i].tolist())
+        # batching is transparent: the same call on the fibre alone
+        if ls[pdim] and len(ls) > 1:
+            xs = pp.LieTensor(Xm[s].clone(), ltype=getattr(pp, g + '_type'))
+            one = raw(getattr(pp, fn.rstrip('_'))(xs, 0, ops) if ops else (getattr(pp, fn.rstrip('_'))(xs, 0) if left is None else getattr(pp, fn.rstrip('_'))(xs, 0, left=left)), torch)
+            for i in range(ls[pdim]):
+                if not oa_close(torch, Rm[s, i], one[i], 64 * 2.3e-16):
+                    return '%s: item %d of fibre %d of the batched result %s differs from the same call on the fibre alone %s (items %s)' % (
+                        where, i, s, Rm[s, i].tolist(), one[i].tolist(), Xm[s].tolist())
+    return None
+
+
+# ---- euler(eps) / quat2unit(eps)
+def oa_quat_from_euler(roll, pitch, yaw):
+    """x-y-z (roll, pitch, yaw) Euler angles -> unit quaternion (x, y, z, w), textbook formula"""
+    cr, sr, cp, sp, cy, sy = math.cos(roll / 2), math.sin(roll / 2), math.cos(pitch / 2), math.sin(pitch / 2), math.cos(yaw / 2), math.sin(yaw / 2)
+    return [sr * cp * cy - cr * sp * sy, cr * sp * cy + sr * cp * sy, cr * cp * sy - sr * sp * cy, cr * cp * cy + sr * sp * sy]
+
+
+def oa_rot_from_euler(torch, e):
+    r, p, y = e[..., 0], e[..., 1], e[..., 2]
+    cr, sr, cp, sp, cy, sy = r.cos(), r.sin(), p.cos(), p.sin(), y.cos(), y.sin()
+    return torch.stack([torch.stack([cy * cp, cy * sp * sr - sy * cr, cy * sp * cr + sy * sr], -1),
+                        torch.stack([sy * cp, sy * sp * sr + cy * cr, sy * sp * cr - cy * sr], -1),
+                        torch.stack([-sp, cp * sr, cp * cr], -1)], -2)
+
+
+OA_EPS_EULER = [None, 2e-4, 1e-6, 1e-2, 0.5]
+OA_EPS_QUAT = [None, 1e-12, 1e-6, 1e-2]
+
+
+def oa_unary_operand(pp, torch, c):
+    g, ls = c['g'], tuple(c['ls'])
+    rng = random.Random('C06-optarg-%s|%s|%s|%s' % (c['sub'], g, ls, c['oseed']))
+    n, D = numel(ls), torch.float64
+    items, sinp = [], []
+    for i in range(n):
+        e = generic_elt(rng, g, torch, D)
+        t, q, s = split_elt(g, e)
+        if c['sub'] == 'euler':
+            # pitch regimes: generic, exact gimbal lock (+-), sin(pitch) = 0.9 and 1 - 1e-5 (inside / outside the eps bands)
+            pitch = [rng.uniform(-1.0, 1.0), math.pi / 2, -math.pi / 2, math.asin(0.9), -math.asin(1 - 1e-5), rng.uniform(-1.2, 1.2)][i % 6]
+            q = oa_quat_from_euler(rng.uniform(-3, 3), pitch, rng.uniform(-3, 3))
+            sinp.append(math.sin(pitch))
+        else:
+            # quaternion regimes: unit, too long, too short, tiny
+            f = [1.0, 2.0, 0.5, 1e-3, 1.0 + 2.0 ** -20][i % 5]
+            q = [v * f for v in q]
+        items.append(join_elt(g, t, q, s))
+    Xr = torch.tensor(items, dtype=D).reshape(ls + (GDIM[g],)) if n else torch.zeros(ls + (GDIM[g],), dtype=D)
+    Xv, buf = oa_layout(torch, Xr, c['layx'])
+    return pp.LieTensor(Xv, ltype=getattr(pp, g + '_type')), Xr, buf, sinp
+
+
+def oa_euler_check(pp, torch, c):
+    g, ls, eps = c['g'], tuple(c['ls']), c['eps']
+    X, Xr, buf, sinp = oa_unary_operand(pp, torch, c)
+    F = ([('X.euler()', lambda: X.euler()), ('pp.euler(X)', lambda: pp.euler(X)), ('pp.euler(inputs=X)', lambda: pp.euler(inputs=X))] if eps is None else
+         [('X.euler(eps)', lambda: X.euler(eps)), ('X.euler(eps=eps)', lambda: X.euler(eps=eps)), ('pp.euler(X, eps)', lambda: pp.euler(X, eps)),
+          ('pp.euler(X, eps=eps)', lambda: pp.euler(X, eps=eps)), ('pp.euler(inputs=X, eps=eps)', lambda: pp.euler(inputs=X, eps=eps))])
+    text, f = F[c['form'] % len(F)]
+    where = '%s with X = %s of lshape %s (%s)%s' % (text, g, ls, OA_LAYOUTS[c['layx']], '' if eps is None else ', eps = %r' % eps)
+    X0, snap = Xr.clone(), buf.clone()
+    try:
+        r = f()
+    except Exception as e:
+        return '%s raises %s' % (where, repr(e)[:150])
+    if not (torch.equal(raw(X, torch), X0) and torch.equal(buf, snap)):
+        return '%s changes the values of its argument' % where
+    if not isinstance(r, torch.Tensor) or tuple(r.shape) != ls + (3,) or r.dtype != X0.dtype or ltype_name(r, torch) is not None:
+        return '%s returns %s of shape %s, documented: a tensor of shape %s' % (where, type(r).__name__, tuple(getattr(r, 'shape', ())), ls + (3,))
+    R = raw(r, torch).reshape(-1, 3)
+    x0 = X0.reshape(-1, GDIM[g])
+    e_eff = 2e-4 if eps is None else eps
+    for k in range(R.shape[0]):
+        xk = pp.LieTensor(x0[k].clone(), ltype=getattr(pp, g + '_type'))
+        it = raw(xk.euler() if eps is None else xk.euler(eps=eps), torch)
+        if not oa_close(torch, R[k], it, 64 * 2.3e-16):
+            return '%s: item %d of the batched result %s differs from the same call on the item x = %s: %s' % (where, k, R[k].tolist(), x0[k].tolist(), it.tolist())
+        # away from the eps band the angles reproduce the rotation (documented x-y-z sequence)
+        if abs(sinp[k]) < 1 - e_eff - 1e-3 or abs(sinp[k]) == 1.0:
+            Rm = oa_mat4(torch, g, x0[k])[:3, :3]
+            Rm = Rm / Rm.det().abs() ** (1.0 / 3)
+            tol = 1e-9 if abs(sinp[k]) < 1 else 1e-6
+            if not bool(((oa_rot_from_euler(torch, R[k]) - Rm).abs() <= tol).all()):
+                return '%s: item %d: the rotation of the returned angles %s differs from the rotation of x = %s' % (where, k, R[k].tolist(), x0[k].tolist())
+    return None
+
+
+def oa_quat2unit_check(pp, torch, c):
+    g, ls, eps = c['g'], tuple(c['ls']), c['eps']
+    X, Xr, buf, _ = oa_unary_operand(pp, torch, c)
+    F = ([('pp.quat2unit(X)', lambda: pp.quat2unit(X)), ('pp.quat2unit(input=X)', lambda: pp.quat2unit(input=X))] if eps is None else
+         [('pp.quat2unit(X, eps)', lambda: pp.quat2unit(X, eps)), ('pp.quat2unit(X, eps=eps)', lambda: pp.quat2unit(X, eps=eps)),
+          ('pp.quat2unit(input=X, eps=eps)', lambda: pp.quat2unit(input=X, eps=eps))])
+    text, f = F[c['form'] % len(F)]
+    where = '%s with X = %s of lshape %s (%s)%s' % (text, g, ls, OA_LAYOUTS[c['layx']], '' if eps is None else ', eps = %r' % eps)
+    X0, snap = Xr.clone(), buf.clone()
+    try:
+        r = f()
+    except Exception as e:
+        return '%s raises %s' % (where, repr(e)[:150])
+    if not (torch.equal(raw(X, torch), X0) and torch.equal(buf, snap)):
+        return '%s changes the values of its argument' % where
+    if ltype_name(r, torch) != g + 'Type' or tuple(r.shape) != tuple(X0.shape) or r.dtype != X0.dtype:
+        return '%s returns %s / ltype %s / shape %s, documented: a %sType LieTensor of shape %s' % (where, type(r).__name__, ltype_name(r, torch), tuple(r.shape), g, tuple(X0.shape))
+    lo = 0 if g in ('SO3', 'RxSO3') else 3
+    ref = X0.clone()
+    v = X0[..., lo:lo + 4]
+    ref[..., lo:lo + 4] = v / v.norm(dim=-1, keepdim=True).clamp_min(1e-12 if eps is None else eps)
+    R, x0, rf = raw(r, torch).reshape(-1, GDIM[g]), X0.reshape(-1, GDIM[g]), ref.reshape(-1, GDIM[g])
+    for k in range(R.shape[0]):
+        if not oa_close(torch, R[k], rf[k], 8 * 2.3e-16):
+            return '%s: item %d of the result is %s, documented v / max(|v|, eps) for x = %s: %s' % (where, k, R[k].tolist(), x0[k].tolist(), rf[k].tolist())
+        xk = pp.LieTensor(x0[k].clone(), ltype=getattr(pp, g + '_type'))
+        it = raw(pp.quat2unit(xk) if eps is None else pp.quat2unit(xk, eps=eps), torch)
+        if not oa_close(torch, R[k], it, 8 * 2.3e-16):
+            return '%s: item %d of the batched result %s differs from the same call on the item x = %s: %s' % (where, k, R[k].tolist(), x0[k].tolist(), it.tolist())
+    return None
+
+
+# ---- constructors: lsize forms, sigma, requires_grad, dtype, device
+OA_SIGMAS = {'SO3': [None, 0, 0.5, 2], 'so3': [None, 0, 0.5, 2], 'SE3': [None, 0, 0.5, (1.0, 2.0), (0, 0), (1.0, 1.5, 2.0, 0.5)],
+             'se3': [None, 0, 2, (1.0, 2.0), (0, 0), (1.0, 1.5, 2.0, 0.5)], 'RxSO3': [None, 0, 0.5, (1.0, 0.5), (0, 0)], 'rxso3': [None, 0, 2, (1.0, 0.5), (0, 0)],
+             'Sim3': [None, 0, 0.5, (1.0, 2.0, 0.5), (0, 0, 0), (1.0, 1.5, 2.0, 0.5, 0.25)], 'sim3': [None, 0, 2, (1.0, 2.0, 0.5), (0, 0, 0), (1.0, 1.5, 2.0, 0.5, 0.25)]}
+OA_IDENT = dict(DT_IDENT, so3=[0.] * 3, se3=[0.] * 6, rxso3=[0.] * 4, sim3=[0.] * 7)
+
+
+def oa_ctor_check(pp, torch, c):
+    nm, ls, fn, sigma, rg, dt, lform = c['name'], tuple(c['ls']), c['fn'], c['sigma'], c['requires_grad'], c['dtype'], c['lform']
+    if isinstance(sigma, list):
+        sigma = tuple(sigma)
+    kw = {}
+    if sigma is not None:
+        kw['sigma'] = sigma
+    if rg is not None:
+        kw['requires_grad'] = rg
+    if dt is not None:
+        kw['dtype'] = getattr(torch, dt)
+    if c.get('device'):
+        kw['device'] = c['device']
+    want_dt = getattr(torch, dt) if dt else torch.get_default_dtype()
+    d = len(OA_IDENT[nm])
+    if fn.endswith('_like'):
+        X = getattr(pp, 'identity_' + nm)(*ls, dtype=torch.float64)
+        text, f = 'pp.%s(X, %s) with X = %s of lshape %s' % (fn, ', '.join('%s=%r' % kv for kv in kw.items()), nm, ls), (lambda: getattr(pp, fn)(X, **kw))
+        want_dt = getattr(torch, dt) if dt else (torch.float64 if fn == 'randn_like' else torch.get_default_dtype())
+    else:
+        args = {'ints': ls, 'tuple': (tuple(ls),), 'list': (list(ls),), 'Size': (torch.Size(ls),)}[lform]
+        text, f = 'pp.%s%s(%s)' % (fn, nm, ', '.join([repr(a) for a in args] + ['%s=%r' % kv for kv in kw.items()])), (lambda: getattr(pp, fn + nm)(*args, **kw))
+    try:
+        r = f()
+    except Exception as e:
+        return '%s raises %s' % (text, repr(e)[:150])
+    if ltype_name(r, torch) != nm + 'Type' or tuple(r.shape) != ls + (d,) or tuple(r.lshape) != ls:
+        return '%s returns %s / ltype %s / shape %s, documented: a %sType LieTensor of lshape %s' % (text, type(r).__name__, ltype_name(r, torch), tuple(r.shape), nm, ls)
+    if r.dtype != want_dt or str(r.device) != 'cpu':
+        return '%s returns dtype %s on %s, documented %s on cpu' % (text, r.dtype, r.device, want_dt)
+    if bool(r.requires_grad) != bool(rg):
+        return '%s returns a tensor with requires_grad = %s' % (text, r.requires_grad)
+    R = raw(r.detach(), torch).reshape(-1, d).to(torch.float64)
+    if not bool(torch.isfinite(R).all()):
+        return '%s returns non-finite values %s' % (text, R.reshape(-1)[:8].tolist())
+    ident = torch.tensor(OA_IDENT[nm], dtype=torch.float64)
+    zero_sigma = sigma is not None and not any(sigma if isinstance(sigma, tuple) else (sigma,))
+    if (fn.startswith('identity') or zero_sigma) and R.shape[0] and not bool((R == ident).all()):
+        return '%s returns %s, documented: identity items %s' % (text, R[0].tolist(), ident.tolist())
+    if nm in DT_IDENT and R.shape[0]:
+        lo = 0 if nm in ('SO3', 'RxSO3') else 3
+        if not bool(((R[:, lo:lo + 4].norm(dim=-1) - 1).abs() <= (1e-5 if want_dt == torch.float32 else 1e-12)).all()):
+            return '%s returns items whose quaternion is not of unit length: %s' % (text, R[0].tolist())
+    return None
+
+
+# ---- mat2* / from_matrix: check, rtol, atol
+OA_MAT_OPTS = [dict(), dict(check=True), dict(check=False), dict(check=True, rtol=1e-5, atol=1e-5), dict(check=True, rtol=1e-3, atol=1e-2), dict(rtol=1e-4), dict(atol=1e-4),
+               dict(check=False, rtol=1e-9, atol=1e-9)]
+
+
+def oa_mat_check(pp, torch, c):
+    g, ls, opts, illegal = c['g'], tuple(c['ls']), dict(c['opts']), c['illegal']
+    rng = random.Random('C06-optarg-mat|%s|%s|%s' % (g, ls, c['oseed']))
+    D, n = torch.float64, numel(ls)
+    items = oa_group_items(rng, g, torch, n)
+    Xr = torch.tensor(items, dtype=D).reshape(ls + (GDIM[g],)) if n else torch.zeros(ls + (GDIM[g],), dtype=D)
+    M4 = oa_mat4(torch, g, Xr)
+    M = (M4[..., :3, :3] if g in ('SO3', 'RxSO3') else M4).clone()
+    if illegal and n:
+        M.reshape((-1,) + tuple(M.shape[-2:]))[n - 1, 0, :3] += torch.tensor([0.0, 3e-3, 0.0], dtype=D) * float(M4.reshape(-1, 4, 4)[n - 1, :3, :3].det().abs() ** (1 / 3))
+    Mv, buf = oa_layout(torch, M, c['layx'])
+    G = getattr(pp, g + '_type')
+    pos = [opts[k] for k in ('check', 'rtol', 'atol') if k in opts] if list(opts) == ['check', 'rtol', 'atol'][:len(opts)] else None
+    F = [('pp.mat2%s(M, %s)' % (g, ', '.join('%s=%r' % kv for kv in opts.items())), lambda: getattr(pp, 'mat2' + g)(Mv, **opts)),
+         ('pp.from_matrix(M, pp.%s_type, %s)' % (g, ', '.join('%s=%r' % kv for kv in opts.items())), lambda: pp.from_matrix(Mv, G, **opts)),
+         ('pp.from_matrix(mat=M, ltype=pp.%s_type, %s)' % (g, ', '.join('%s=%r' % kv for kv in opts.items())), lambda: pp.from_matrix(mat=Mv, ltype=G, **opts))]
+    if pos is not None:
+        F.append(('pp.mat2%s(M, %s)' % (g, ', '.join(repr(v) for v in pos)), lambda: getattr(pp, 'mat2' + g)(Mv, *pos)))
+        F.append(('pp.from_matrix(M, pp.%s_type, %s)' % (g, ', '.join(repr(v) for v in pos)), lambda: pp.from_matrix(Mv, G, *pos)))
+    text, f = F[c['form'] % len(F)]
+    where = '%s with M = the matrices of the %s items %s (lshape %s, %s)%s' % (text, g, Xr.reshape(-1, GDIM[g])[:3].tolist(), ls, OA_LAYOUTS[c['layx']],
+                                                                             ', first row of the last rotation block perturbed by 3e-3' if illegal else '')
+    snap, M0 = buf.clone(), Mv.clone()
+    checking = opts.get('check', True)
+    loose = opts.get('atol', 1e-5) >= 1e-2
+    try:
+        r = f()
+    except Exception as e:
+        if illegal and n and checking and not loose and isinstance(e, ValueError):
+            return None
+        return '%s raises %s' % (where, repr(e)[:150])
+    if illegal and n and checking and not loose:
+        return '%s returns although check is enabled and one matrix is not a legal transformation within the tolerances (documented: ValueError)' % where
+    if not (torch.equal(Mv, M0) and torch.equal(buf, snap)):
+        return '%s changes the values of its argument' % where
+    if ltype_name(r, torch) != g + 'Type' or tuple(r.shape) != ls + (GDIM[g],) or r.dtype != D:
+        return '%s returns %s / ltype %s / shape %s, documented: a %sType LieTensor of shape %s' % (where, type(r).__name__, ltype_name(r, torch), tuple(r.shape), g, ls + (GDIM[g],))
+    if illegal:
+        return None
+    R = raw(r, torch).reshape(-1, GDIM[g])
+    Mf = M4.reshape(-1, 4, 4)
+    Min = M0.reshape((-1,) + tuple(M0.shape[-2:]))
+    for k in range(R.shape[0]):
+        back = oa_mat4(torch, g, R[k])
+        if not bool(((back - Mf[k]).abs().amax() <= 1e-9 * (1 + Mf[k].abs().amax()))):
+            return '%s: item %d of the result %s does not have the matrix it was converted from (item %s)' % (where, k, R[k].tolist(), Xr.reshape(-1, GDIM[g])[k].tolist())
+        it = raw(getattr(pp, 'mat2' + g)(Min[k].clone(), **opts), torch)
+        if not oa_close(torch, R[k], it, 64 * 2.3e-16):
+            return '%s: item %d of the batched result %s differs from the same call on the single matrix: %s' % (where, k, R[k].tolist(), it.tolist())
+    return None
+
+
+OA_CHECKS = {'add': oa_add_check, 'cum': oa_cum_check, 'euler': oa_euler_check, 'quat2unit': oa_quat2unit_check, 'ctor': oa_ctor_check, 'mat': oa_mat_check}
+
+
+def oa_run(ctx, pp, torch, c, key, branch, nontrivial=True):
+    ctx.case(('optarg',) + tuple(sorted((k, repr(v)) for k, v in c.items())), nontrivial=nontrivial, branch=branch)
+    try:
+        with warnings.catch_warnings():
+            warnings.simplefilter('ignore')
+            what = OA_CHECKS[c['sub']](pp, torch, c)
+    except Exception as e:
+        what = 'the oracle of case %r could not be evaluated: %s' % (c, repr(e)[:200])
+    if what:
+        if 'changes the values of its' in what and not c.get('inplace'):
+            key = 'mutation:' + key.split(':')[1]
+        ctx.violation(key, what, c)
+
+
+def part_optargs(ctx, pp, torch, files2, meta2):
+    rng = ctx.rng
+    oseed = rng.randrange(1 << 30)
+    # add / add_: alpha
+    for c, out_l in oa_add_cases(ctx, torch):
+        fn = 'add_' if c['inplace'] else 'add'
+        arg = 'alpha' if c['alpha'] is not None else 'call-form'
+        oa_run(ctx, pp, torch, c, 'optarg:%s:%s%s' % (fn, arg, '' if out_l is not None else ':incompatible-lshapes'),
+               'optarg-%s-%s%s' % (fn, oa_edge(c['lx'], c['la'], out_l), '-alpha' if c['alpha'] not in (None, 1, 1.0) else ''),
+               nontrivial=(out_l is None or numel(out_l) != 1 or c['lx'] != c['la']))
+    # cumprod / cummul / cumops (+ in place): dim, left
+    k = rng.randrange(1000)
+    for g in GROUPS:
+        for ls, dim in OA_CUM_SHAPES:
+            for fn in ('cumprod', 'cummul', 'cumops', 'cumprod_', 'cummul_', 'cumops_'):
+                for left in ((True, False) if fn.startswith('cumops') else (None, True, False)):
+                    k += 1
+                    c = dict(kind='optarg', sub='cum', g=g, ls=ls, dim=(dim if k % 3 else dim - len(ls) - 1), left=left, fn=fn, form=k,
+                             layx=((k // 2) % 3), oseed=oseed)
+                    oa_run(ctx, pp, torch, c, 'optarg:%s:%s' % (fn, 'ops' if fn.startswith('cumops') else ('left' if left is not None else 'call-form')),
+                           'optarg-%s-%s' % (fn, 'default' if left is None else ('left' if left else 'right')))
+    # euler / quat2unit: eps
+    for g in GROUPS:
+        for ls in [(), (6,), (2, 3), (0,), (7, 1)]:
+            for sub, epss in (('euler', OA_EPS_EULER), ('quat2unit', OA_EPS_QUAT)):
+                for eps in epss:
+                    k += 1
+                    c = dict(kind='optarg', sub=sub, g=g, ls=ls, eps=eps, form=k, layx=(k // 2) % 3, oseed=oseed)
+                    oa_run(ctx, pp, torch, c, 'optarg:%s:%s' % (sub, 'eps' if eps is not None else 'call-form'), 'optarg-%s-%s' % (sub, 'default' if eps is None else 'eps'),
+                           nontrivial=(ls != ()))
+    # constructors
+    for nm in list(DT_IDENT) + [ALG[g] for g in GROUPS]:
+        for ls in [(), (2,), (0,), (2, 1, 3)]:
+            for sigma in OA_SIGMAS[nm]:
+                k += 1
+                c = dict(kind='optarg', sub='ctor', name=nm, ls=ls, fn='randn_', sigma=sigma, requires_grad=(None, True, False)[k % 3], dtype=(None, 'float64', 'float32')[(k // 3) % 3],
+                         lform=('ints', 'tuple', 'list', 'Size')[(k // 2) % 4], device=('cpu' if k % 4 == 0 else None))
+                oa_run(ctx, pp, torch, c, 'optarg:randn_%s:%s' % (nm, 'sigma' if sigma is not None else 'keywords'), 'optarg-randn-%s' % ('sigma' if sigma is not None else 'default'), nontrivial=(ls != ()))
+                if sigma is None or not isinstance(sigma, tuple):
+                    oa_run(ctx, pp, torch, dict(c, fn='randn_like'), 'optarg:randn_like:%s' % ('sigma' if sigma is not None else 'keywords'), 'optarg-randn_like', nontrivial=(ls != ()))
+            for rg in (None, True, False):
+                k += 1
+                # the collection forms of lsize are documented for identity_* as well (they raised TypeError before the repair "fix: identity constructors accept lsize ...")
+                c = dict(kind='optarg', sub='ctor', name=nm, ls=ls, fn='identity_', sigma=None, requires_grad=rg, dtype=(None, 'float64', 'float32')[k % 3], lform=('ints', 'tuple', 'list', 'Size')[(k // 3) % 4],
+                         device=('cpu' if k % 2 else None))
+                oa_run(ctx, pp, torch, c, 'optarg:identity_%s:keywords' % nm, 'optarg-identity', nontrivial=(ls != ()))
+                oa_run(ctx, pp, torch, dict(c, fn='identity_like'), 'optarg:identity_like:keywords', 'optarg-identity_like', nontrivial=(ls != ()))
+    # mat2* / from_matrix
+    for g in GROUPS:
+        for ls in [(), (3,), (2, 2), (0,), (1, 3)]:
+            for oi, opts in enumerate(OA_MAT_OPTS):
+                for illegal in (False, True):
+                    if illegal and not numel(ls):
+                        continue
+                    k += 1
+                    c = dict(kind='optarg', sub='mat', g=g, ls=ls, opts=opts, illegal=illegal, form=k, layx=(k // 3) % 2, oseed=oseed)
+                    oa_run(ctx, pp, torch, c, 'optarg:mat2%s:%s' % (g, '-'.join(sorted(opts)) or 'call-form'), 'optarg-mat2-%s' % ('illegal' if illegal else 'legal'), nontrivial=(ls != ()))
+
+
+
+PARTS.append(part_optargs)
+
+
+def replay_optarg(pp, torch, c):
+    c = dict(c)
+    for k in ('lx', 'la', 'ls'):
+        if k in c and c[k] is not None:
+            c[k] = tuple(c[k])
+    with warnings.catch_warnings():
+        warnings.simplefilter('ignore')
+        return OA_CHECKS[c['sub']](pp, torch, c)
+
+
 # ------------------------------------------------------------------------------------------------ replay
 def replay(ctx, c):
     pp = import_pypose()
@@ -1727,6 +2364,8 @@ def replay(ctx, c):
         return None
     if kind == 'dtype':
         return replay_dtype(pp, torch, c)
+    if kind == 'optarg':
+        return replay_optarg(pp, torch, c)
     if kind == 'mutation':
         for entry in sweep_entries(pp, torch, random.Random(c['seed'])):
             if entry[0] == c['name']:
